@@ -1,3 +1,168 @@
 package main
 
-func primRun() {}
+import (
+	"encoding/json"
+	"fmt"
+	"math/rand"
+	"strings"
+
+	"verifharness/vh"
+)
+
+// C18 cases (specs/Cond/CondPrim.tla): conditions x requests x relation.
+type primArg struct {
+	S      *string   `json:"s"`
+	B      *bool     `json:"b"`
+	IP     *IPSpec   `json:"ip"`
+	IPList []IPSpec  `json:"iplist"`
+	Time   *TimeSpec `json:"time"`
+	Tod    *TimeSpec `json:"tod"`
+}
+
+type primCond struct {
+	Prim string    `json:"prim"`
+	Args []primArg `json:"args"`
+}
+
+type primCase struct {
+	ID    int        `json:"id"`
+	G     string     `json:"g"`
+	Tag   string     `json:"tag"`
+	Conds []primCond `json:"conds"`
+	Reqs  []ReqSpec  `json:"reqs"`
+	Rel   string     `json:"rel"`
+}
+
+func (a *primArg) render(rnd *rand.Rand, canonical bool) string {
+	switch {
+	case a.S != nil:
+		return strLit(*a.S, rnd, canonical)
+	case a.B != nil:
+		if *a.B {
+			return "true"
+		}
+		return "false"
+	case a.IP != nil:
+		return `"` + a.IP.String() + `"`
+	case a.IPList != nil:
+		var xs []string
+		for i := range a.IPList {
+			xs = append(xs, a.IPList[i].String())
+		}
+		return `"` + strings.Join(xs, "|") + `"`
+	case a.Time != nil:
+		return `"` + a.Time.Full() + `"`
+	case a.Tod != nil:
+		return `"` + a.Tod.OfDay() + `"`
+	}
+	return `""`
+}
+
+func (c *primCond) render(rnd *rand.Rand, canonical bool) string {
+	parts := make([]string, len(c.Args))
+	for i := range c.Args {
+		parts[i] = c.Args[i].render(rnd, canonical)
+	}
+	sep := ", "
+	if !canonical && rnd.Intn(2) == 0 {
+		sep = ","
+	}
+	return c.Prim + "(" + strings.Join(parts, sep) + ")"
+}
+
+func primRun() {
+	rnd := vh.Rand(18)
+	n, bad := 0, 0
+	vh.EachCase(func(line []byte) {
+		var c primCase
+		if err := json.Unmarshal(line, &c); err != nil || len(c.Conds) == 0 || len(c.Reqs) == 0 {
+			vh.Emit(map[string]interface{}{"_sanity": fmt.Sprintf("bad case %s: %v", line, err)})
+			return
+		}
+		n++
+		prim := c.Conds[0].Prim
+		fail := func(what, detail string) {
+			bad++
+			vh.Emit(vh.Result{ID: c.ID, OK: false, Sig: prim + "/" + c.Tag + "/" + what, Detail: detail, Case: c})
+		}
+		for alt := 0; alt < 2; alt++ {
+			var texts []string
+			obs := ""
+			for ci := range c.Conds {
+				text := c.Conds[ci].render(rnd, alt == 0)
+				texts = append(texts, text)
+				cond, out, det := buildGuarded(text)
+				if out == "panic" || out == "hang" {
+					fail("build-"+out+"-"+panicSite(det), fmt.Sprintf("condition.Build(%q): %s %s", text, out, det))
+					return
+				}
+				if out != "ok" {
+					if c.Rel != "G" {
+						fail("build-error", fmt.Sprintf("condition.Build(%q) failed: %s; the documents define this call", text, det))
+					}
+					return
+				}
+				for ri := range c.Reqs {
+					req, err := c.Reqs[ri].Request()
+					if err != nil {
+						vh.Emit(map[string]interface{}{"_sanity": err.Error()})
+						return
+					}
+					m, mdet := matchGuarded(cond, req)
+					if m == "panic" || m == "hang" {
+						fail("match-"+m+"-"+panicSite(mdet), fmt.Sprintf("%q on %q: %s %s", text, c.Reqs[ri].raw(), m, mdet))
+						return
+					}
+					obs += m
+				}
+			}
+			okv := true
+			switch c.Rel {
+			case "T", "F":
+				okv = obs == c.Rel
+			case "ONE":
+				okv = strings.Count(obs, "T") == 1
+			case "NONE":
+				okv = strings.Count(obs, "T") == 0
+			case "SAME":
+				okv = len(obs) == 2 && obs[0] == obs[1]
+			}
+			if !okv {
+				var raws []string
+				for ri := range c.Reqs {
+					raws = append(raws, c.Reqs[ri].raw())
+				}
+				fail("exp"+c.Rel+"-got"+obs, fmt.Sprintf("%s on %q (session %s): Match gave %s, documented matching requires %s",
+					strings.Join(texts, " ; "), raws, sessionDesc(&c.Reqs[0]), obs, c.Rel))
+				return
+			}
+		}
+	})
+	vh.Emit(map[string]interface{}{"summary": true, "cases": n, "bad": bad})
+}
+
+func sessionDesc(r *ReqSpec) string {
+	var xs []string
+	if r.Secure {
+		xs = append(xs, fmt.Sprintf("tls sni=%q clientauth=%v ca=%q", r.Sni, r.CAuth, r.CA))
+	}
+	if r.Cip != nil {
+		xs = append(xs, "cip="+r.Cip.String())
+	}
+	if r.Sip != nil {
+		xs = append(xs, "sip="+r.Sip.String())
+	}
+	if r.Vip != nil {
+		xs = append(xs, "vip="+r.Vip.String())
+	}
+	if len(r.Tags) > 0 {
+		xs = append(xs, fmt.Sprintf("tags=%v", r.Tags))
+	}
+	if r.Res != nil {
+		xs = append(xs, fmt.Sprintf("response=%d %v", r.Res.Code, r.Res.Headers))
+	}
+	if r.Trusted {
+		xs = append(xs, "trusted")
+	}
+	return strings.Join(xs, " ")
+}
